@@ -12,6 +12,7 @@ CONFIGS = {
     "K4": ["--no-default-features", "--features", "std,devices"],
     "K5": ["--no-default-features"],
     "K6": ["--features", "devices", "--release"],
+    "K7": ["--no-default-features", "--features", "alloc,libm,devices,dim_check_release", "--release"],
 }
 
 _tmp_root = None
